@@ -104,7 +104,7 @@ def run_V3(ctx, case):
         chk(got == want, 'literal pool holds the masks of the specification (L1/L2/L3/dataset/FSCAL): %s vs %s' % ([hex(g) if is_c(g) else '?' for g in got], [hex(w_) for w_ in want]))
         rm_tab = [lit(64 + 4 * k, 4) for k in range(4)]; chk(rm_tab == [0, 2, 3, 1], 'rounding-mode table maps RandomX modes 0-3 to frm values RNE, RDN, RUP, RTZ (%s)' % rm_tab)
         q.prove_eq(pc, bv(m.frm, 3), frm_e, '%s: prologue leaves frm alone' % tag, 3)
-        FRAME = m.x[2].off if isinstance(m.x[2], Ptr) else None; chk(FRAME == STK - 224, 'sp = frame base')
+        FRAME = m.x[2].off if isinstance(m.x[2], Ptr) else None; chk(FRAME is not None and FRAME < STK and FRAME % 16 == 0, 'sp = 16-byte aligned frame base')
         # ---------------- phase 2: one iteration from an arbitrary loop state (4.6.2)
         R0 = [z3.BitVec('r%d' % i, 64) for i in range(8)]; ma, mx = z3.BitVecs('ma mx', 32); ic = z3.BitVec('ic', 64); fk['pc'] += [ic >= 1, ic < (1 << 31)]
         for k in range(8): m.x[16 + k] = R0[k]
@@ -237,7 +237,8 @@ def run_V3(ctx, case):
             for r_ in (8, 9, 18, 19, 20, 21, 22, 23, 24, 25, 26, 27): q.prove_eq(pc, m.f[r_], fentry[r_], '%s: callee-saved %s restored' % (tag, FN[r_]), 64)
             chk(isinstance(m.x[2], Ptr) and m.x[2].obj == 'stack' and m.x[2].off == STK, 'stack pointer restored')
         for (kd, obj, off, nb) in m.accesses:
-            if obj == 'stack' and is_c(off): chk(STK - 224 <= off and off + nb <= STK, 'stack access inside the 224-byte frame: %s at %d' % (kd, off))
+            low = m.min_sp if getattr(m, 'min_sp', None) is not None else FRAME
+            if obj == 'stack' and is_c(off): chk(min(low, FRAME) <= off and off + nb <= STK, 'stack access between the lowest stack pointer of the call and the entry stack pointer: %s at %d' % (kd, off))
             elif obj == 'dataset' and kd == 'store': chk(False, 'store into the dataset')
             elif obj == CODE and kd == 'store': chk(False, 'store into the code buffer')
         extent_checks(q, pc, mem, tag)
